@@ -100,6 +100,10 @@ def grammar(tier: str = "quick") -> List[V]:
                       dct("dab", (K("a"), K(1)), (K("b"), K("s"))), dct("d1", (K(1), K("s"))), tup("t2", K(1), K("s")), tup("t0"), st_("s1", K(1)),
                       dct("db", (K("b"), K(2)))]
     out: List[V] = list(atoms) + list(inner)
+    # keys that are identifiers but not in NFKC form (MICRO SIGN vs GREEK MU, a ligature) or differ only by case: distinct keys of
+    # one dict, whatever a parser, a normaliser or a case-folder would make of them
+    out += [dct("dmu", (K("\u00b5s"), K(1))), dct("dmu2", (K("\u00b5s"), K(1)), (K("\u03bcs"), K("s"))), dct("dcase", (K("Key"), K(1)), (K("key"), K("s"))),
+            dct("dfi", (K("\ufb01le"), K(1)), (K("file"), K("s")))]
     out += [ddct("dd0"), ddct("dd1", (K("k"), K(1))), ddct("dd2", (K("k"), lst("ddl", K(1)))), dct("dm", (K("a"), K(1)), (K(2), K("s"))), st_("s0"), st_("s2", K(1), K("s"))]
     n = 0
     pick = inner if tier == "thorough" else inner[:9] + inner[11:]
